@@ -27,7 +27,7 @@ RULE = ("(n, x): n in 0..6, x signed in a wide range: random doubles, k*10^-n (a
         "(float.hex): Segment(x, x+1000 units).start, then copy(), s&s, s|s, Timeline([s]).support()[0] and 50 "
         "re-wrappings; |result - x| <= unit/2 checked with fractions; monotonicity and ==/hash on neighbouring inputs; "
         "n = 0 additionally on arbitrary doubles against exact integer arithmetic; set_precision(None) restores "
-        "unrounded bounds and the 1e-6 threshold; non-trivial = x negative or within 1e-9 units of a tie")
+        "unrounded bounds and the 1e-6 threshold; the rounding still in force while each of thirteen library iterators is suspended, closed or exhausted and after eleven plain queries; non-trivial = x negative or within 1e-9 units of a tie")
 TRUSTED = ["Coq primitive floats (binary64 operations of the kernel's evaluator) for the bit-exact float level"]
 
 
@@ -63,6 +63,11 @@ def generate(rng, tier):
         for _ in range(12 if tier == "thorough" else 4):
             cases.append({"k": "stale", "n": n_, "x": float(rng.uniform(-50, 50)).hex()})
     cases.append({"k": "none"})
+    # the precision stays in force while a library iterator is suspended half-way, after it was closed, after it was
+    # exhausted and after every other query
+    for n_ in range(0, 7):
+        for _ in range(10 if tier == "thorough" else 3):
+            cases.append({"k": "suspended", "n": n_, "x": float(rng.uniform(-50, 50)).hex()})
     # one-tick and two-tick segments on the grid combined with ordinary ones: the operations agree with bool() on what
     # is empty (a one-tick segment is empty iff its float duration does not exceed the precision)
     for n_ in range(0, 7):
@@ -152,6 +157,62 @@ def run(case):
                         ok = ok and Timeline([a, b]).extent() == hull
                     ok = ok and (a | b) == Segment((a | b).start, (a | b).end)
             return {"ok": bool(ok)}
+        if k == "suspended":
+            from pyannote.core import Annotation, SlidingWindow
+            n = case["n"]
+            x = float.fromhex(case["x"])
+            Segment.set_precision(n)
+            P = S.SEGMENT_PRECISION
+            probe = lambda: (lambda q: (q.start, q.end))(Segment(x + 0.123456789, x + 0.123456789 + 1000 * P))
+            ref = probe()
+            base = math.floor(x)
+            segs = [Segment(base + 10 * i * P + 3 * j * P, base + 10 * i * P + 3 * j * P + 20 * P) for i in range(4) for j in range(2)]
+            segs += [Segment(base + 500 * P, base + 520 * P), Segment(base + 900 * P, base + 930 * P)]
+            t = Timeline(segs)
+            t2 = Timeline([Segment(base + 5 * P, base + 15 * P), Segment(base + 505 * P, base + 910 * P)])
+            a = Annotation()
+            for i_, sg in enumerate(segs):
+                a[sg, i_ % 2] = "ab"[i_ % 2]
+            big = Segment(base - 100 * P, base + 2000 * P)
+            w = SlidingWindow(duration=20 * P, step=10 * P, start=base)
+            makers = {
+                "iter(timeline)": lambda: iter(t), "support_iter": lambda: t.support_iter(),
+                "support_iter(collar)": lambda: t.support_iter(2 * P), "gaps_iter": lambda: t.gaps_iter(big),
+                "co_iter": lambda: t.co_iter(t2), "crop_iter": lambda: t.crop_iter(t2, mode="intersection"),
+                "crop_iter(mapping)": lambda: t.crop_iter(t2, mode="loose", returns_mapping=True),
+                "overlapping_iter": lambda: t.overlapping_iter(base + 12 * P), "itersegments": lambda: a.itersegments(),
+                "itertracks": lambda: a.itertracks(yield_label=True), "ann.co_iter": lambda: a.co_iter(a),
+                "window": lambda: iter(w(big)), "window.iter": lambda: iter(SlidingWindow(duration=20 * P, step=10 * P, start=base, end=base + 100 * P)),
+            }
+            bad = []
+            for name, mk in makers.items():
+                g = mk()
+                try:
+                    next(g)
+                except StopIteration:
+                    pass
+                if probe() != ref:
+                    bad.append(name + " suspended")
+                if hasattr(g, "close"):
+                    g.close()
+                if probe() != ref:
+                    bad.append(name + " closed")
+                for _ in mk():
+                    pass
+                if probe() != ref:
+                    bad.append(name + " exhausted")
+                Segment.set_precision(n)
+            for name, f in (("support", lambda: t.support(P)), ("gaps", lambda: t.gaps(big)), ("crop", lambda: t.crop(t2)),
+                            ("extrude", lambda: t.extrude(t2)), ("segmentation", lambda: t.segmentation()),
+                            ("get_overlap", lambda: t.get_overlap()), ("ann.support", lambda: a.support(P)),
+                            ("ann.crop", lambda: a.crop(t2)), ("ann.extrude", lambda: a.extrude(t2)),
+                            ("discretize", lambda: a.discretize(big, resolution=10 * P)), ("extent", lambda: t.extent())):
+                f()
+                if probe() != ref:
+                    bad.append(name)
+                Segment.set_precision(n)
+            assert not bad, "Segment bounds are no longer rounded to the precision in force after / during: " + ", ".join(bad)
+            return {"ok": True}
         if k == "none":
             Segment.set_precision(3)
             Segment.set_precision(None)
